@@ -23,6 +23,8 @@ def _h(txt):
 
 CID = "C09"
 VO = ["props/C09.vo"] + R.VO_MODEL
+# relativedelta.py: two-argument branch of __init__, _fix, _set_months, __add__ on a date, __radd__
+ANCHOR_RANGES = [(112, 169), (231, 262), (272, 280), (362, 405)]
 REPORT = ("diff_ok", "only_relative", "normalised", "dt2_plus_d_is_dt1", "months_maximal")
 
 
@@ -105,6 +107,138 @@ def gen_pair(r):
         tzinfo = a.tzinfo if kinds[1] == "aware" else None      # one common zone object
         b = _dt.datetime(y, m, d, hh, mi, ss, us, tzinfo=tzinfo)
     return a, b
+
+
+# ------------------------------------------------------------------ aware operands, DISTINCT tzinfo objects
+
+def lin_us(o):
+    """position of the wall value on the model's time line (microseconds since 0001-01-01T00:00)"""
+    return ((o.toordinal() - 1) * 86400 + o.hour * 3600 + o.minute * 60 + o.second) * 10 ** 6 + o.microsecond
+
+
+def zone_pair(desc):
+    """two DISTINCT tzinfo objects describing one zone"""
+    from dateutil import tz
+    if desc[0] == "tzoffset":
+        return tz.tzoffset("A", desc[1]), tz.tzoffset("B", desc[1])
+    if desc[0] == "tzrange":
+        return tz.tzrange("EST", -18000, "EDT"), tz.tzrange("EST", -18000, "EDT")
+    raise ValueError(desc)
+
+
+def gen_distinct(r):
+    """(zone description, naive dt1, naive dt2)"""
+    import calendar
+    if r.random() < 0.3:
+        desc = ["tzoffset", r.choice([0, 3600, -18000, 19800, 86340, -86340])]
+    else:
+        desc = ["tzrange"]
+    y = r.randint(1990, 2035)
+    c = r.random()
+    if c < 0.7:
+        # around the default tzrange transitions: first Sunday of April, last Sunday of October, 02:00
+        if r.random() < 0.5:
+            first = _dt.date(y, 4, 1)
+            tr = first + _dt.timedelta(days=(6 - first.weekday()) % 7)
+        else:
+            last = _dt.date(y, 10, 31)
+            tr = last - _dt.timedelta(days=(last.weekday() - 6) % 7)
+        a = _dt.datetime(tr.year, tr.month, tr.day) + _dt.timedelta(days=r.randint(-3, 3), hours=r.randint(0, 23),
+                                                                      minutes=r.choice([0, 30, 59]))
+        b = a + _dt.timedelta(days=r.randint(-70, 70), hours=r.randint(-23, 23), seconds=r.randint(0, 59),
+                              microseconds=r.choice([0, 1, 999999]))
+    else:
+        a = _dt.datetime(y, r.randint(1, 12), r.randint(1, 28), *R.gen_time(r))
+        y2 = r.randint(1990, 2035)
+        m2 = r.randint(1, 12)
+        b = _dt.datetime(y2, m2, min(r.choice([1, 28, 29, 30, 31]), calendar.monthrange(y2, m2)[1]), *R.gen_time(r))
+    return (desc, a, b) if r.random() < 0.5 else (desc, b, a)
+
+
+def run_distinct(cases, oracle, want_samples=0):
+    """cases: (zone description, naive dt1, naive dt2).  The operands get two distinct tzinfo objects."""
+    from dateutil.relativedelta import relativedelta
+    diffs, samples, hist = [], [], {}
+    cnt = {"distinct_evaluations": 0, "distinct_model_diff": 0, "distinct_inverse_fails": 0,
+           "distinct_offset_changes": 0, "distinct_impl_errors": 0}
+    reqs, plan = [], []
+    for desc, n1, n2 in cases:
+        za, zb = zone_pair(desc)
+        dt1, dt2 = n1.replace(tzinfo=za), n2.replace(tzinfo=zb)
+        cnt["distinct_evaluations"] += 1
+        hk = "distinct:" + desc[0]
+        hist[hk] = hist.get(hk, 0) + 1
+        item = {"desc": desc, "dt1": dt1, "dt2": dt2}
+        try:
+            d = relativedelta(dt1, dt2)
+            item["r"] = ("ok", R.rd_proj(d))
+            back = dt2 + d
+            item["back"] = R.dt_proj(back)
+            # same wall value and same utcoffset (not `back == dt1`: by PEP 495 an inter-zone == is False
+            # whenever an operand lies in a fold or gap, even for identical wall values)
+            item["back_ok"] = (back.replace(tzinfo=None) == n1) and (back.utcoffset() == dt1.utcoffset())
+            dtm = dt2 + relativedelta(years=d.years, months=d.months)
+            item["off_pair"] = [int(dt1.utcoffset().total_seconds()), int(dtm.utcoffset().total_seconds())]
+        except Exception as ex:
+            cnt["distinct_impl_errors"] += 1
+            item["r"] = ("err", R.exc_code(ex))
+            item["back"], item["back_ok"], item["off_pair"] = None, False, None
+        # utcoffset at every wall value the constructor can consult: the operands and dt2 shifted by the
+        # candidate month counts (the shift itself is C03's verified wall-clock addition)
+        pts = {lin_us(dt1): dt1.utcoffset(), lin_us(dt2): dt2.utcoffset()}
+        m0 = (dt1.year - dt2.year) * 12 + (dt1.month - dt2.month)
+        for k in (-3, -2, -1, 0, 1, 2, 3):
+            try:
+                x = dt2 + relativedelta(months=m0 + k)
+            except Exception:
+                continue
+            pts[lin_us(x)] = x.utcoffset()
+        tab = []
+        for l, off in sorted(pts.items()):
+            tab += [l, (off.days * 86400 + off.seconds) * 10 ** 6 + off.microseconds]
+        item["offsets"] = sorted(set(tab[1::2]))
+        item["slot"] = len(reqs)
+        reqs.append((R.E_MKDIFF_AWARE, [len(tab) // 2] + tab + R.enc_dt(dt1) + R.enc_dt(dt2)))
+        plan.append(item)
+    res = oracle.call_many(reqs)
+    for item in plan:
+        model = R.dec_res_rd(res[item["slot"]])
+        inp = {"dt1": R.dt_proj(item["dt1"]), "dt2": R.dt_proj(item["dt2"]), "distinct_tzinfo_objects": True,
+               "zone": item["desc"], "utcoffsets_us_consulted": item["offsets"],
+               "utcoffset_s_of_dt1_and_of_shifted_dt2": item["off_pair"]}
+        if len(item["offsets"]) > 1:
+            cnt["distinct_offset_changes"] += 1
+        reported = False
+        if not item["back_ok"]:
+            cnt["distinct_inverse_fails"] += 1
+            reported = True
+            diffs.append(({"kind": "aware operands of one zone in two distinct tzinfo objects: "
+                                   "dt2 + relativedelta(dt1, dt2) != dt1", "input": inp, "impl": item["r"],
+                           "impl_dt2_plus_d": item["back"]}, True))
+        if model != item["r"]:
+            cnt["distinct_model_diff"] += 1
+            if not reported:
+                diffs.append(({"kind": "correspondence: model mk_diff_aware differs from relativedelta(dt1, dt2) "
+                                       "(aware operands, distinct tzinfo objects)", "input": inp,
+                               "impl": item["r"], "model": model}, False))
+        if len(samples) < want_samples:
+            samples.append({"distinct_tzinfo": inp, "impl": item["r"], "model": model,
+                            "impl_dt2_plus_d": item["back"], "inverse_holds": item["back_ok"]})
+    return {"diffs": diffs, "hist": hist, "samples": [], "dsamples": samples, "cnt": cnt, "nontrivial": set()}
+
+
+def m_distinct_tzinfo_offset_change(payload):
+    """F-C09-distinct-tzinfo: aware operands whose tzinfo attributes are distinct objects AND the zone's
+    utcoffset at dt1 differs from the one at dt2 shifted by the result's years/months (the residual is then
+    a UTC duration, but it is added back as wall-clock time)"""
+    inp = payload.get("input") or {}
+    pair = inp.get("utcoffset_s_of_dt1_and_of_shifted_dt2")
+    return (payload.get("kind", "").startswith("aware operands of one zone in two distinct tzinfo objects")
+            and inp.get("distinct_tzinfo_objects") is True and isinstance(pair, list) and len(pair) == 2
+            and pair[0] != pair[1])
+
+
+MATCHERS = {"m_distinct_tzinfo_offset_change": m_distinct_tzinfo_offset_change}
 
 
 def malformed_pairs():
@@ -254,6 +388,10 @@ def worker(job):
             pairs = exhaustive_cases(tier)[lo:hi]
         elif what == "corpus":
             pairs = load_corpus()
+        elif what == "distinct":
+            out = run_distinct([gen_distinct(C.rng("C09/distinct/%d" % i)) for i in range(lo, hi)], o, want_samples=2)
+            out["nontrivial"] = []
+            return out
         else:
             pairs = [gen_pair(C.rng("C09/%d" % i)) for i in range(lo, hi)]
         out = run_batch(pairs, o, want_samples=2)
@@ -267,6 +405,19 @@ def replay(path):
     data = json.load(open(path))
     C.ensure_built([R.AREA], VO)
     inp = data.get("input")
+    if isinstance(inp, dict) and inp.get("distinct_tzinfo_objects"):
+        n1, n2 = _dt.datetime(*inp["dt1"][1:]), _dt.datetime(*inp["dt2"][1:])
+        o = C.Oracle(R.AREA)
+        out = run_distinct([(inp["zone"], n1, n2)], o, want_samples=1)
+        o.close()
+        for smp in out["dsamples"]:
+            print("input      dt1=%r dt2=%r in two distinct tzinfo objects of zone %r" % (n1, n2, inp["zone"]))
+            print("impl       relativedelta(dt1, dt2) =", smp["impl"])
+            print("model      mk_diff_aware           =", smp["model"])
+            print("impl       dt2 + d                 =", smp["impl_dt2_plus_d"], " inverse holds:", smp["inverse_holds"])
+        for payload, concrete in out["diffs"]:
+            print("DIFF (%s): %s" % ("concrete" if concrete else "model only", json.dumps(payload, default=str)))
+        return 1 if out["diffs"] else 0
     if not (isinstance(inp, dict) and "dt1" in inp):
         print("replay names a broken obligation, no concrete input:", json.dumps(data, indent=1)[:3000])
         return 0
@@ -291,7 +442,7 @@ def main():
         return replay(argv[argv.index("--replay") + 1])
     tier = C.tier_from_argv(argv)
     t0 = time.time()
-    verdict = C.Verdict(CID)
+    verdict = C.Verdict(CID, MATCHERS)
     build_err = None
     try:
         C.ensure_built([R.AREA], VO)
@@ -303,7 +454,7 @@ def main():
     else:
         props = C.compile_props(CID)
 
-    n_rand = 40000 if tier == "quick" else 3000000
+    n_rand = 40000 if tier == "quick" else 2500000
     procs = R.nprocs(tier)
     n_exh = len(exhaustive_cases(tier))
     jobs = [("corpus", tier, 0, 0)]
@@ -311,14 +462,22 @@ def main():
     jobs += [("exh", tier, lo, min(n_exh, lo + step)) for lo in range(0, n_exh, step)]
     step = max(2000, n_rand // (procs * 6))
     jobs += [("rand", tier, lo, min(n_rand, lo + step)) for lo in range(0, n_rand, step)]
+    n_distinct = 6000 if tier == "quick" else 300000
+    step = max(2000, n_distinct // (procs * 3))
+    jobs += [("distinct", tier, lo, min(n_distinct, lo + step)) for lo in range(0, n_distinct, step)]
     have_oracle = os.path.exists(os.path.join(C.BIN, "oracle_rd"))
-    total = {"diffs": [], "hist": {}, "samples": [], "cnt": {}, "nontrivial": set()}
+    total = {"diffs": [], "hist": {}, "samples": [], "cnt": {}, "nontrivial": set(), "dsamples": []}
+    cov_summary = {"available": False}
     if have_oracle:
-        for out in R.pool_map(worker, jobs, procs):
+        # one small shard in-process under coverage.py (anchored lines), the rest in the pool
+        first, cov_summary = R.measure_anchor_coverage(
+            lambda: [worker(("corpus", tier, 0, 0)), worker(("rand", tier, n_rand, n_rand + 1500))], ANCHOR_RANGES)
+        for out in first + R.pool_map(worker, jobs[1:], procs):
             total["diffs"] += out["diffs"]
             R.merge_hist(total["hist"], out["hist"])
             R.merge_hist(total["cnt"], out["cnt"])
             total["samples"] += out["samples"]
+            total["dsamples"] += out.get("dsamples", [])
             total["nontrivial"].update(out["nontrivial"])
     for payload, concrete in sorted(total["diffs"], key=lambda pc: (not pc[1],)):
         verdict.violation(payload, concrete=concrete)
@@ -356,11 +515,28 @@ def main():
         "spec_vs_impl_disagreements": cnt.get("spec_diff", 0),
         "self_check_disagreements": cnt.get("self_diff", 0),
         "malformed_stream": {"cases": len(malformed_pairs()), "not_rejected": len(mal)},
+        "distinct_tzinfo_stream": {"cases": cnt.get("distinct_evaluations", 0),
+                                   "what": "aware operands of ONE zone held in two distinct tzinfo objects (two "
+                                           "tz.tzoffset of one offset; two tz.tzrange('EST',-18000,'EDT')), pairs "
+                                           "around the DST transitions; model = RdAwareModel.mk_diff_aware with the "
+                                           "utcoffsets observed on the implementation",
+                                   "offset_changes_between_consulted_points": cnt.get("distinct_offset_changes", 0),
+                                   "model_vs_impl_disagreements": cnt.get("distinct_model_diff", 0),
+                                   "inverse_law_failures": cnt.get("distinct_inverse_fails", 0),
+                                   "samples": total["dsamples"][:4]},
         "partial_theorems": [t for t in props["theorems"] if t.endswith("_partial")],
+        "theorem_guards": {"all C09 theorems": "both operands valid dates / naive datetimes (year 1..9999); mixed "
+                           "date/datetime pairs are coerced to datetimes exactly as the constructor does"},
         "only_differential_tested": ["aware pairs (the model has no tzinfo; a common zone object makes CPython "
                                       "compare and subtract wall times)",
                                       "rejection of non-date / mixed naive-aware operands (TypeError)"],
         "known_findings_hit": verdict.known_hits,
+        "anchor_coverage_of_one_shard": dict(cov_summary, note="expected missing: 116 (TypeError, exercised by the "
+                                             "malformed stream outside the measured shard), 233-236 and 253-256 (_fix "
+                                             "carries of microseconds / months: unreachable from this constructor, "
+                                             "timedelta.microseconds < 10^6 and _set_months already normalises), 363, "
+                                             "383/386/394-401 (absolute fields, leapdays and weekday of __add__: a "
+                                             "difference never has them -- theorem C09_diff_only_relative)"),
     }
     C.write_evidence(CID, tier, t0, props, cov,
                      ["CPython datetime/date/timedelta comparison and subtraction modelled on the time line "
@@ -368,11 +544,13 @@ def main():
                       "aware datetimes of one tzinfo object behave as naive ones (CPython rule), not modelled"],
                      len(verdict.violations))
     print("C09 %s: obligations %d/%d, %d pairs (%d exhaustive-stream), %d distinct non-trivial, loop iterations "
-          "0/1/2+ = %d/%d/%d, model-diff %d, spec-diff %d, self-diff %d, %.1fs" % (
+          "0/1/2+ = %d/%d/%d, model-diff %d, spec-diff %d, self-diff %d, distinct-tzinfo stream %d cases / %d model-diff / "
+          "%d inverse failures (known findings %d), %.1fs" % (
               tier, props["discharged"], props["obligations"], cnt.get("evaluations", 0), n_exh,
               len(total["nontrivial"]), cnt.get("loop_iter_0", 0), cnt.get("loop_iter_1", 0),
               cnt.get("loop_iter_2plus", 0), cnt.get("model_diff", 0), cnt.get("spec_diff", 0),
-              cnt.get("self_diff", 0), time.time() - t0))
+              cnt.get("self_diff", 0), cnt.get("distinct_evaluations", 0), cnt.get("distinct_model_diff", 0),
+              cnt.get("distinct_inverse_fails", 0), sum(verdict.known_hits.values()), time.time() - t0))
     return rc
 
 
